@@ -448,6 +448,8 @@ def interesting_test(t):
         return True
     if t[0] == 'cmp' and t[1] in ('Eq', 'NotEq') and all(x[0] == 'call' and x[1] == T_sym(TRIM_FN) for x in t[2:4]):
         return True  # "same algorithm / same task?" comparisons of trimmed names
+    if t[0] == 'cmp' and t[1] in ('Eq', 'NotEq') and any(x[0] == 'attr' and x[2] == 'tag' for x in t[2:4]):
+        return True  # "is it this node?" comparisons of node tags
     m = mcall(t)
     if m and not m[2] and not m[3]:  # zero-argument method call used as a condition: "does A declare inputs?"
         return True
@@ -1852,12 +1854,15 @@ def _ancestry_facts(prog, rep, r, fx):
         # frontier loops: every iteration extends the sets by the parents of the frontier element
         loops = [x for x in w.events if x.func is af and x.kind in ('iter_end', 'loop_broken') and any(t[0] == 'in' and t[2] == D or (t[0] == 'in' and D[0] == 'sub' and t[2] == D[1]) for t in x.tags)]
         seen = 0
+        growing = {x.data['lid'] for x in loops if any(t[0] == 'op' and t[1] in ('update', '__ior__', 'add') for t in x.data['new'])}
         for x in loops:
             el = x.data['elem']
             if el == D or (D[0] == 'sub' and el == D[1]):
                 if x.kind == 'loop_broken':
                     probs.append((x, f'the loop over the nodes can stop early ({x.data["how"]})'))
                 continue
+            if x.data['lid'] not in growing:
+                continue  # a loop that extends nothing (logging, ...)
             seen += 1
             if x.kind == 'loop_broken':
                 probs.append((x, f'the loop over the frontier can stop early ({x.data["how"]})'))
@@ -1871,13 +1876,28 @@ def _ancestry_facts(prog, rep, r, fx):
                 if not self_excl:
                     probs.append((x, f'frontier elements are skipped unless {show(pred)}; only the node itself may be skipped'))
                     continue
-            elif any(t[0] == 'test' for t in x.data['new']):
-                probs.append((x, 'the expansion of a frontier element depends on a test that is not understood'))
-                continue
+            else:
+                is_self, foreign = False, None
+                for t in x.data['new']:
+                    if t[0] != 'test':
+                        continue
+                    c = t[1]
+                    if c[0] == 'cmp' and c[1] in ('Eq', 'NotEq') and {c[2], c[3]} & {T_attr(el, 'tag')} and {c[2], c[3]} & set(own_names):
+                        is_self = is_self or (t[2] if c[1] == 'Eq' else not t[2])
+                    else:
+                        foreign = c
+                if foreign is not None:
+                    probs.append((x, f'the expansion of a frontier element depends on {show(foreign)}; only the node itself may be skipped'))
+                    continue
+                if is_self:
+                    continue
             srcs = (T_call(T_attr(el, 'get'), (T_const('parents'),)), T_call(T_attr(('sub', fx.FLAT, T_attr(el, 'tag')), 'get'), (T_const('parents'),)))
             ups = [t for t in x.data['new'] if t[0] == 'op' and t[1] in ('update', '__ior__') and len(t[3]) == 1]
-            if len([t for t in ups if t[3][0] in srcs]) < 2:
-                probs.append((x, f"an iteration over the frontier does not extend both the accumulated set and the next frontier with the frontier element's parents (updates seen: {[show(t[3][0]) for t in ups]})"))
+            from_parents = [t for t in ups if (gk := get_attrkey(t[3][0])) and gk[1] == 'parents']
+            if not [t for t in from_parents if t[3][0] in srcs]:
+                probs.append((x, f"an iteration over the frontier does not extend the accumulated set with the frontier element's parents (updates seen: {[show(t[3][0]) for t in ups]})"))
+            elif [t for t in from_parents if t[3][0] not in srcs]:
+                probs.append((x, f"a set is extended with the parents of something other than the frontier element: {[show(t[3][0]) for t in from_parents if t[3][0] not in srcs]}"))
         if not seen:
             probs.append((e, 'no loop over a frontier of parents was found'))
     if probs:
@@ -2173,7 +2193,12 @@ VARIANTS = [
         'R-C09-6',
     ),
     V('trim before ancestry', 'B', _D, 'Construct.__init__', 'self._ancestry()', 'self._xt = self._trim_trees(2)\n        self._ancestry()', 'R-C09-6'),
+    V('_ancestry expands only the node itself', 'B', _D, 'Construct._ancestry', 'p.tag != n', 'p.tag == n', 'R-C09-6'),
+    V("_ancestry re-adds the node's own parents", 'B', _D, 'Construct._ancestry', "heritage.update(self._flat[p.tag].get('parents'))", "heritage.update(self._flat[name].get('parents'))", 'R-C09-6'),
+    V('_ancestry computed for the roots only', 'B', _D, 'Construct._ancestry', 'for name, dct in self._flat.items():', 'for name, dct in [(r.tag, r) for r in self._roots]:', 'R-C09-6'),
     # ---- benign
+    V('_ancestry skips the node itself with if/continue', 'N', _D, 'Construct._ancestry', 'for p in filter(lambda p, n=name: p.tag != n, parents):', 'for p in parents:\n                    if p.tag == name:\n                        continue', None),
+    V('_ancestry over values()', 'N', _D, 'Construct._ancestry', 'for name, dct in self._flat.items():', 'for dct in self._flat.values():\n            name = dct.tag', None),
     V('additional early _ancestry pass (the later one still follows _parents)', 'N', _D, 'Construct.__init__', 'self._parents(self._roots, set())', 'self._ancestry()\n        self._parents(self._roots, set())', None),
     V('three builders merged into one parametrised function', 'N', _D, None, _THREE_OLD, _THREE_NEW, None),
     V('rename pn', 'N', _D, None, 'pn', 'parent_name', None, 'all'),
